@@ -43,6 +43,12 @@ func (st Stim) coq() string {
 		return "SBreak"
 	case "adj":
 		return fmt.Sprintf("SAdj %s %s", cw.Z(st.A), cw.Z(st.B))
+	case "batch":
+		subs := make([]string, len(st.Sub))
+		for i, x := range st.Sub {
+			subs[i] = x.coq()
+		}
+		return "SBatch " + cw.L(subs)
 	}
 	panic("unknown stimulus " + st.Op)
 }
@@ -67,6 +73,12 @@ func short(st Stim) string {
 			return fmt.Sprintf("fin(%d)", st.A)
 		}
 		return fmt.Sprintf("fin(%d,err%d)", st.A, st.B)
+	case "batch":
+		subs := make([]string, len(st.Sub))
+		for i, x := range st.Sub {
+			subs[i] = short(x)
+		}
+		return fmt.Sprintf("batch(adjust of %d held: %s)", st.A, strings.Join(subs, " "))
 	case "esub", "stop", "break":
 		return st.Op
 	case "deq", "erecv", "resize":
@@ -155,6 +167,14 @@ func classify(s *sess, prop string) ([]string, bool) {
 				tags["blocked-producer"] = true
 			}
 			nEnq++
+		case "batch":
+			tags["held-adjust-batch"] = true
+			for _, sub := range st.S.Sub {
+				if sub.Op == "enq" {
+					enqStep[nEnq] = k
+					nEnq++
+				}
+			}
 		case "deq":
 			tags[fmt.Sprintf("deq-res%d", st.O.Res)] = true
 		case "setp":
@@ -382,6 +402,39 @@ func profileFor(prop, tier string) profile {
 	return p
 }
 
+// ---------- held adjust function: an arrival and a completion token compete at the dispatcher's select (C05) ----------
+// One worker: item 0 executes, 1 sits in the worker channel, 2 (adjust function, held) and the next nWait items wait
+// in the priority queue.  Batch: 0 completes -> the dispatcher consumes the token and parks inside item 2's adjust
+// function; 1 completes (its token is pending, the worker is idle, the worker channel has room); a newcomer is
+// enqueued (its producer waits at workChan); release.  The dispatcher hands out 2 and then finds BOTH the token and
+// the arrival ready: Go's select picks either.  Whatever it picks, no waiting item may be overtaken by the newcomer
+// unless the newcomer's priority entitles it to - the model (all interleavings) says exactly which start orders are
+// allowed.  The choice is random, so the scenario is run many times.
+func (g *world) runHeld(trial int) {
+	r := g.rng
+	nWait := 1 + trial%3
+	L := 3 + nWait + r.Intn(3)
+	opts := []Opt{{"w", 1}, {"l", L}}
+	if trial%2 == 1 {
+		opts = []Opt{{"l", L}, {"w", 1}}
+	}
+	s := newSessOpts(opts)
+	s.do(Stim{Op: "enq", A: 1, B: 0})
+	s.do(Stim{Op: "enq", A: 1, B: 1})
+	s.do(Stim{Op: "enq", A: 1, B: 2, Adj: true})
+	for i := 0; i < nWait; i++ {
+		s.do(Stim{Op: "enq", A: 2 + r.Intn(2), B: 3 + i})
+	}
+	newPrio := 100
+	if trial%4 == 3 {
+		newPrio = 0 // a newcomer that is entitled to overtake if it arrives before the decision
+	}
+	s.do(Stim{Op: "batch", A: 2, Sub: []Stim{{Op: "fin", A: 0, B: -1}, {Op: "fin", A: 1, B: -1}, {Op: "enq", A: newPrio, B: 3 + nWait}}})
+	s.finishAll(100)
+	s.close()
+	g.emit(s, "held-adjust")
+}
+
 // ---------- configuration scripts: HOW the worker count and queue length are given (C09) ----------
 // Each script builds the queue from an option list (either order, one option alone = the other at its default
 // NumCPU / 2*NumCPU, repeated options, optionally ResizeQueueLength right after construction), fills it with gated
@@ -552,6 +605,13 @@ func corpus() []script {
 		{1, 6, []Stim{enq(1, 0), enq(1, 1), enqA(2, 2), enq(3, 3), enqA(4, 4), adjv(2, 9), deq(2), fin(0), fin(1)}, "corpus-dequeue-after-adjust-change"},
 		{1, 6, []Stim{enq(1, 0), enq(1, 1), enqA(2, 2), enq(3, 3), enqA(4, 4), adjv(2, 9), adjv(4, 0), deq(3), fin(0), fin(1)}, "corpus-dequeue-other-after-adjust-change"},
 		{1, 6, []Stim{enq(1, 0), enq(1, 1), enqA(2, 2), enq(3, 3), enq(5, 4), adjv(2, 9), setp(4, 0), fin(0), fin(1)}, "corpus-setpriority-after-adjust-change"},
+		// Dequeue of waiting items, the queue drains, then new work arrives on the idle queue: it must start at once
+		{1, 3, []Stim{enq(1, 0), enq(1, 1), enq(1, 2), enq(1, 3), deq(3), fin(0), fin(1), fin(2), enq(1, 4), fin(4), enq(1, 5)}, "corpus-dequeue-drain-enqueue"},
+		{2, 2, []Stim{enq(1, 0), enq(1, 1), enq(1, 2), enq(1, 3), enq(1, 4), enq(1, 5), deq(4), deq(5), fin(0), fin(1), fin(2), fin(3), enq(1, 6), enq(1, 7), enq(1, 8)}, "corpus-dequeue-drain-enqueue"},
+		// Dequeue frees queue length: after two dequeues two more arrivals fit without the full-queue branch
+		{1, 2, []Stim{enq(1, 0), enq(1, 1), enq(1, 2), enq(1, 3), deq(2), deq(3), enq(1, 4), enq(1, 5), enq(1, 6), enq(1, 7)}, "corpus-dequeue-frees-length"},
+		// explicit priority 0 (the zero value) is a priority like any other
+		{1, 6, []Stim{enq(1, 0), enq(1, 1), enq(1, 2), enq(0, 3), enq(1, 4), enq(0, 5), fin(0), fin(1)}, "corpus-priority-zero"},
 		// far more workers than items (and than CPUs)
 		{64, 1, []Stim{enq(1, 0), enq(2, 1), enq(1, 2), enq(0, 3), enq(1, 4), fin(2), fin(0)}, "corpus-many-workers"},
 		// priorities further apart than the int range: the order must not be computed from a difference
@@ -1045,6 +1105,8 @@ func main() {
 	if *module == "" {
 		*module = "Corr" + *prop
 	}
+	os.MkdirAll(*out, 0o755)
+	progressPath = *out + "/progress.json"
 	g := &world{w: cw.New(*out, *module), rng: rand.New(rand.NewSource(*seed)), prop: *prop}
 	g.w.Chunk = 50
 	t0 := time.Now()
@@ -1091,6 +1153,16 @@ func main() {
 		// 1. corpus
 		for _, sc := range corpus() {
 			g.runFixed(sc)
+		}
+		if *prop == "C05" {
+			nh := 24
+			if *tier == "thorough" {
+				nh = 200
+			}
+			for i := 0; i < nh; i++ {
+				g.runHeld(i)
+			}
+			scope["held-adjust"] = fmt.Sprintf("%d runs of the held-adjust-function scenario (W=1; an arrival and a completion token become ready together while the dispatcher is parked in an adjust function)", nh)
 		}
 		if *prop == "C09" {
 			for _, c := range configScripts() {
@@ -1158,6 +1230,11 @@ func main() {
 			if *prop == "C09" && i%3 == 2 {
 				q.pErr = 0
 				gen = "random-no-errors"
+				if i%2 == 0 {
+					// items taken out of the priority queue by Dequeue: the dispatcher's view of the queue must follow
+					q.wDeq = 4
+					gen = "random-dequeue"
+				}
 			}
 			if (*prop == "C05" && i%3 == 1) || (*prop == "C16" && i%4 == 2) {
 				// priorities, adjust values and SetPriority arguments at the ends of the int range
